@@ -150,7 +150,7 @@ Qed.
 Lemma etrapz_scal c (xs es : list R) : etrapz xs (map (Rmult c) es) = c * etrapz xs es.
 Proof.
   revert es; induction xs as [|x0 xs IH]; intros es.
-  - destruct es; cbn [map]; rewrite ?etrapz_nil_r; try (cbn; lra). reflexivity || (cbn; lra).
+  - cbn. lra.
   - destruct xs as [|x1 xs]; [rewrite !etrapz_one_l; lra|].
     destruct es as [|e0 [|e1 es]]; cbn [map]; rewrite ?etrapz_nil_r, ?etrapz_one_r; try lra.
     rewrite !etrapz_cons2. specialize (IH (e1 :: es)). cbn [map] in IH. rewrite IH. lra.
@@ -160,12 +160,16 @@ Lemma etrapz_mono (xs es es' : list R) : Forall2 Rle es es' -> etrapz xs es <= e
 Proof.
   intros F; revert xs; induction F as [|e0 e0' es es' H0 F IH]; intros xs.
   - lra.
-  - destruct xs as [|x0 [|x1 xs]]; try (cbn; lra).
+  - destruct xs as [|x0 [|x1 xs]].
+    + cbn. lra.
     + rewrite !etrapz_one_l. lra.
     + destruct F as [|e1 e1' es1 es1' H1 F1].
       * rewrite !etrapz_one_r. lra.
       * rewrite !etrapz_cons2. specialize (IH (x1 :: xs)).
-        assert (0 <= (x1 - x0) * (x1 - x0)) by nra. nra.
+        assert (HA : 0 <= (x1 - x0) * (x1 - x0)) by exact (Rle_0_sqr (x1 - x0)).
+        assert (HB : (x1 - x0) * (x1 - x0) * (e1 + e0) <= (x1 - x0) * (x1 - x0) * (e1' + e0'))
+          by (apply Rmult_le_compat_l; lra).
+        lra.
 Qed.
 
 (* ------------------------------------------------------------------ *)
@@ -441,7 +445,7 @@ Proof.
   2:{ rewrite map_map2. clearbody fac ce xc. revert ce xc.
       induction fac as [|f fac IH]; intros [|v ce] [|xj xc]; cbn [map2]; try reflexivity.
       f_equal; [numR; ring | apply IH]. }
-  rewrite etrapz_scal. rewrite sqrt_mult_alt by nra. rewrite sqrt_square by exact Hc. reflexivity.
+  rewrite etrapz_scal. rewrite sqrt_mult_alt by (apply Rmult_le_pos; exact Hc). rewrite sqrt_square by exact Hc. reflexivity.
 Qed.
 
 (* 5. monotone in the input uncertainty *)
@@ -457,7 +461,7 @@ Proof.
     pose proof (Rle_0_sqr (rsin (xj * x'))) as S. unfold Rsqr in S. nra. }
   unfold vmul. apply U_Forall2_map2_r with (P := fun u v => 0 <= u <= v).
   { intros f u v A. numR. rewrite !Rabs_mult. rewrite (Rabs_pos_eq u), (Rabs_pos_eq v) by lra.
-    pose proof (Rabs_pos f). nra. }
+    apply Rmult_le_compat_l; [apply Rabs_pos | lra]. }
   unfold cropw. apply U_select_Forall2. exact F.
 Qed.
 
